@@ -59,8 +59,7 @@ class BaseElementLocator
     }
 
     template <class Allocator>
-    explicit BaseElementLocator(std::byte* last_element, std::size_t max_element_count,
-                                const Allocator& allocator) noexcept
+    explicit BaseElementLocator(std::byte* last_element, std::size_t max_element_count, const Allocator& allocator)
         : last_element_(last_element)
     {
         element_addresses_.reserve(max_element_count, allocator);
@@ -355,7 +354,7 @@ class ElementLocatorAndFixedSizes
     template <class Allocator>
     constexpr ElementLocatorAndFixedSizes(std::size_t max_element_count, std::byte* memory,
                                           const FixedSizesArray& fixed_sizes, ElementSize element_size,
-                                          const Allocator& allocator) noexcept
+                                          const Allocator& allocator)
         : Base{fixed_sizes}, locator_(max_element_count, memory, element_size, allocator)
     {
     }
@@ -363,7 +362,7 @@ class ElementLocatorAndFixedSizes
     template <class Allocator>
     ElementLocatorAndFixedSizes(const ElementLocatorAndFixedSizes& other, std::byte* old_memory_begin,
                                 std::size_t old_max_element_count, std::byte* new_memory_begin,
-                                std::size_t max_element_count, const Allocator& allocator) noexcept
+                                std::size_t max_element_count, const Allocator& allocator)
         : Base{other.fixed_sizes()}, locator_{other.locator_,   old_memory_begin,  old_max_element_count,
                                               new_memory_begin, max_element_count, allocator}
     {
